@@ -556,6 +556,59 @@ func GenSession(prop string, seed uint64, thorough bool) *Scenario {
 			sc.Reent = append(sc.Reent, ReentSpec{Event: g.picks("message", "packet", "packetCreate", "flush", "drain", "heartbeat", "upgrade", "upgrading", "close", "callback"), Call: g.picks("send", "send", "close", "close-discard"), Nth: g.rng(1, 3)})
 		}
 	}
+	// Coincidences: independent causes are aimed at one virtual instant, because the defects of this code base
+	// live in check-then-act windows a few statements wide (a close next to a close cause, an orderly close next
+	// to the arriving poll, two requests of one kind, a send next to the switch).  A client's own clock starts
+	// when it has processed the open packet: StartMs + 2*latency on every transport.
+	if !sc.FaultFree && g.p(0.35) {
+		ci := g.IntN(len(sc.Clients))
+		c := &sc.Clients[ci]
+		if len(c.Raw) == 0 {
+			openAt := c.StartMs + 2*c.LatencyMs
+			switch g.IntN(5) {
+			case 0: // application close in the instant of a client-side fault / silence / orderly close
+				at := -1
+				if len(c.Faults) > 0 {
+					at = c.Faults[g.IntN(len(c.Faults))].AtMs
+				} else if c.CloseAtMs > 0 {
+					at = c.CloseAtMs
+				} else if c.UpgradeAtMs > 0 && c.Upgrade != "" {
+					at = c.UpgradeAtMs + g.pick(0, 2*c.LatencyMs, 100+4*c.LatencyMs)
+				}
+				if at >= 0 {
+					sc.App = append(sc.App, AppOp{AtMs: openAt + at + g.pick(0, 0, c.LatencyMs), Task: "coincide-" + c.Name, Op: g.picks("close", "close-discard", "close"), Sess: c.Name})
+				}
+			case 1: // orderly close in the instant the client's next poll arrives: a send answers the pending poll at T,
+				// the client polls again one response latency, its think time and one request latency later
+				if c.Transport == "polling" {
+					t := g.rng(20, sc.HorizonMs/2)
+					id := fmt.Sprintf("%s.co.%d", c.Name, len(sc.App))
+					sc.App = append(sc.App, AppOp{AtMs: openAt + t, Task: "coincide-" + c.Name, Op: "send", Sess: c.Name, ID: id, Size: 8})
+					sc.App = append(sc.App, AppOp{AtMs: openAt + t + 2*c.LatencyMs + c.PollGapMs, Task: "coincide2-" + c.Name, Op: "close", Sess: c.Name})
+				}
+			case 2: // a duplicated request in the very instant of the original
+				if c.Transport == "polling" {
+					if g.p(0.5) {
+						c.Faults = append(c.Faults, FaultSpec{AtMs: 0, Kind: "dup-poll"})
+					} else if len(c.Sends) > 0 {
+						c.Faults = append(c.Faults, FaultSpec{AtMs: c.Sends[g.IntN(len(c.Sends))].AtMs, Kind: "dup-post"})
+					}
+				}
+			case 3: // server shutdown in the instant of a handshake or of an upgrade
+				at := c.StartMs + g.pick(0, c.LatencyMs)
+				if c.Upgrade != "" && g.p(0.5) {
+					at = openAt + c.UpgradeAtMs + g.pick(0, c.LatencyMs, 2*c.LatencyMs)
+				}
+				sc.App = append(sc.App, AppOp{AtMs: at, Task: "shutdown", Op: "server-close"})
+			default: // the client gives up (reset / abort) in the instant the application sends
+				if len(c.Faults) > 0 {
+					f := c.Faults[g.IntN(len(c.Faults))]
+					id := fmt.Sprintf("%s.co.%d", c.Name, len(sc.App))
+					sc.App = append(sc.App, AppOp{AtMs: openAt + f.AtMs, Task: "coincide-" + c.Name, Op: "send", Sess: c.Name, ID: id, Size: g.pick(1, 8, 200), CB: g.p(0.5)})
+				}
+			}
+		}
+	}
 	// C12/C03: a graceful close whose client never comes back - the 30 s close timeout has to end the session,
 	// with the application's reason.  Needs a horizon beyond those 30 s and a heartbeat that does not fire first.
 	if (prop == "C12" || prop == "C03") && !sc.FaultFree && g.p(0.08) {
